@@ -100,3 +100,18 @@ def writes_through(A, local=1):
                 fld = next((e for e in p if isinstance(e, dict) and "f" in e), None)
                 out.append((bb, si, fld.get("n") if fld else None, A.tb.rvalue(st["rv"], (bb, si), st)))
     return out
+
+
+def loop_entry_value(A, t, head, blocks):
+    """a loop-carried variable read inside the loop is an opaque phi; what the loop starts from is the variable's value at
+    the end of the loop's only outside predecessor.  t: N-form or raw term; returns an N-form term (t itself if it is not such a phi)"""
+    x = t
+    if isinstance(x, tuple) and x and x[0] == "ref":
+        x = x[1]
+    if isinstance(x, tuple) and len(x) > 2 and x[0] == "opq" and x[1] == "phi" and isinstance(x[2], int) and not (len(x) > 3 and x[3]):
+        b = A.body
+        pre = [p for (p, _l) in b.pred[head] if p not in blocks]
+        if len(pre) == 1:
+            v = G.N(A.tb.read(x[2], (), (pre[0], len(b.stmts(pre[0])))))
+            return v
+    return x
